@@ -409,3 +409,44 @@ class Ellipse(Contract):
 
 
 CONTRACTS.append(Ellipse())
+
+
+# ---------------------------------------------------------------------------------------------
+class Density2dArguments(Contract):
+    """C05 (argument validation only): other than two channels / fewer than two events are refused before anything is computed.
+    The histogram / smoothing / cumulative cut / event mapping of density2d use object arrays of Python lists, argsort, cumsum and
+    scikit-image: outside the prover's subset (stated), decided by the bounded stand-in."""
+    target = 'FlowCal.gate.density2d'
+    property_ids = ('C05',)
+    config = {'call_contracts': io_specs.summaries()}
+
+    def cases(self):
+        out = []
+        for cont in ('ndarray', 'FCSData'):
+            out.append({'label': '%s-wrong-number-of-channels' % cont, 'container': cont, 'kind': 'badlen'})
+            out.append({'label': '%s-fewer-than-two-events' % cont, 'container': cont, 'kind': 'fewevents'})
+        return out
+
+    def setup(self, I, case):
+        c = I.ctx
+        N, D = sym_dims(I, 'N', 'D')
+        c.assume(D >= 2)
+        data = sym_fcs(I, 'data', N, D) if case['container'] == 'FCSData' else sym_array(I, 'data', [N, D], 'float')
+        aux = {'N': N, 'D': D, 'data': data}
+        if case['kind'] == 'badlen':
+            n = c.fresh_int('n')
+            c.assume(z3.And(n >= 0, n != 2))
+            ch = sym_int_list(I, 'chs', n)
+        else:
+            c.assume(N <= 1)
+            ch = stamp(Seq('list', [0, 1]))
+        return [data], {'channels': ch, 'gate_fraction': SV(c.fresh_real('f'), 'real')}, aux
+
+    def expected_outcomes(self, case):
+        return ['raise:ValueError']
+
+    def check(self, I, case, aux, out):
+        I.ctx.prove('refused-with-ValueError-before-any-gating', out.raised('ValueError'))
+
+
+CONTRACTS.append(Density2dArguments())
